@@ -138,6 +138,9 @@ def twin(rng, ctx) -> None:
             k = 1 - k
         order.append(k)
         for f in readers[k].read(chunk_lists[k][idx[k]]):
+            if f is hdlc_mon.POISON:
+                ctx.violation("C02:returned-list-shared-between-calls", "read() handed back an object that a caller had appended to the list returned by an earlier call", {"twin": True, "cfgs": [list(c) for c in cfgs], "chunks": [list(c) for c in chunk_lists], "order": order, "sent": [[fr for fr, _ in m[1]] for m in made]})
+                return
             got[k].append((bytes(f.as_bytes), f.is_valid))
         idx[k] += 1
         k = 1 - k if rng.random() < 0.85 else k
@@ -196,7 +199,8 @@ def replay(case: dict, ctx) -> None:
         idx = [0, 0]
         for k in case["order"]:
             for f in readers[k].read(case["chunks"][k][idx[k]]):
-                got[k].append((bytes(f.as_bytes), f.is_valid))
+                if f is not hdlc_mon.POISON:
+                    got[k].append((bytes(f.as_bytes), f.is_valid))
             idx[k] += 1
         for j in range(2):
             if got[j] != [(fr, True) for fr in case["sent"][j]]:
